@@ -12,7 +12,8 @@ def main():
     vf.build("hooks")
     c.model("Abi.tla", "AbiSmall.cfg" if c.thorough else "AbiSmallQuick.cfg")
     abidiff = vf.tool("hooks", "abidiff")
-    cases = campaign.gen_pairs(c, 3000 if c.thorough else 250, MutCats='{"breaking", "harmless", "unlisted"}', MinMuts=1, MaxMuts=3, MaxIfaces=5)
+    cases = campaign.gen_pairs(c, 3000 if c.thorough else 180, MutCats='{"breaking", "harmless", "unlisted"}', MinMuts=1, MaxMuts=3, MaxIfaces=5)
+    cases += campaign.gen_pairs(c, 1500 if c.thorough else 80, name="gencxx", Lang='"cxx"', MutCats='{"breaking", "harmless", "unlisted"}', MinMuts=1, MaxMuts=3, MaxIfaces=5)
     optsets = [[], ["--harmless"], ["--redundant"], ["--no-harmful", "--harmless"], ["--no-show-locs"]]
 
     def one(job):
